@@ -75,7 +75,7 @@ def codeBase (k : Kind) : Nat := (intBases.lookup (handlerOfKind k)).getD 0
 /-- the model's ~D ~B ~O ~X are the shared integer directive in the radix the code hands over -/
 theorem int_directives_use_the_code_bases (T : EnglishTables) (k : Kind) (hk : k = .d ∨ k = .b ∨ k = .o ∨ k = .x)
     (vs : List PVal) (colon atm : Bool) (st : St) :
-    runSimple T k vs colon atm st = runIntDir (codeBase k) vs 0 colon atm st := by
+    runSimple T k vs colon atm st = runIntDir T (codeBase k) vs 0 colon atm st := by
   have h1 : codeBase .d = 10 := by decide
   have h2 : codeBase .b = 2 := by decide
   have h3 : codeBase .o = 8 := by decide
